@@ -138,3 +138,28 @@ pub async fn run() -> Result<ExitCode> {
 		exit
 	})
 }
+
+/// Verification hooks: compiled only with `--cfg watchexec_verif`, re-exporting crate-private items.
+#[cfg(watchexec_verif)]
+pub mod verif {
+	pub use crate::{
+		config::make_config,
+		dirs::{ignores, project_origin, vcs_types},
+		emits::{emits_to_environment, events_to_simple_format},
+		filterer::WatchexecFilterer,
+		state::{new as new_state, State},
+	};
+
+	/// Parse and normalise an argument vector the way `get_args` does (no logging, no @argfiles).
+	pub async fn args_from(argv: Vec<String>) -> miette::Result<crate::args::Args> {
+		use clap::Parser;
+		let mut args =
+			crate::args::Args::try_parse_from(argv).map_err(|e| miette::miette!("{e}"))?;
+		args.output.normalise()?;
+		args.command.normalise().await?;
+		args.filtering.normalise(&args.command).await?;
+		args.events
+			.normalise(&args.command, &args.filtering, args.only_emit_events)?;
+		Ok(args)
+	}
+}
